@@ -201,6 +201,7 @@ func (op *Operation) run() {
 		}
 		queryCondSignaled := op.cond.Signaled()
 		op.mu.Unlock()
+		verifPoint("run:unlocked-before-select")
 		select {
 		case stalled <- struct{}{}:
 		case <-op.stopping.Done():
